@@ -72,4 +72,23 @@ theorem C16_reported_then_closed (env : Env) (s : State) (id : String) (b : Bid)
   obtain ⟨s', r, hx, _, hgone⟩ := C16_next_bid env s id b hs hq
   exact ⟨s', r, hx, (C16_closed s' id).2 hgone⟩
 
+/-- and through an executor's expiry of the ask: exactly the reported size goes back to the owner
+    and the reported approver escrow to the approver -/
+theorem C16_next_ask_expire (env : Env) (s : State) (id exec : String) (a : Ask) (hs : sane s = true)
+    (hq : query s (.getAsk id) = .ok (.ask a)) (hex : memS exec s.info.executors = true) :
+    ∃ s' r, execute env s ⟨exec, [], .expireAsk id⟩ = .ok (s', r) ∧
+      paysExactly env.contract r.msgs
+        ((a.owner, a.base, a.size) ::
+          (match a.cls with | .ready ap conv => [(ap, conv.denom, conv.amount)] | _ => [])) = true ∧
+      s'.asks.get? id = none := by
+  have := query_ok.mp hq
+  simp only at this
+  obtain ⟨_, a', ha', he⟩ := this
+  cases he
+  obtain ⟨s', r, hx, hok⟩ := C06_expire_ask env s id exec a hs ha' hex
+  refine ⟨s', r, hx, ?_⟩
+  unfold C06_askExitOK at hok
+  simp only [ha', Bool.and_eq_true, Option.isNone_iff_eq_none] at hok
+  exact hok
+
 end Ats.Proofs
